@@ -95,7 +95,7 @@ def api_correspondence(ctx, tg, tga):
         nmax = max(2, rng.choice([need, need, need + 1, need + rng.randint(0, 40), need - 1, need - rng.randint(1, n),
                                   bc.main_sizes_double(n, nbk, sp / n + 0.01, 1.0, True)[2]]))
         pads.append(("p%d" % i, n, buckets, nmax, sp))
-    pads.append(("pwrap", 8, [3, 0], 64, 2 ** 31))     # uint32 product wraps: 3*2^31 mod 2^32 = 2^31
+    pads.append(("pwrap", 8, [3, 0], 64, 2 ** 31))     # 3*2^31: a 64-bit product (size_t member), no uint32 wrap
     # what main can hand to the field: sizes derived from (n, pattern, spacing_ps, RoundPadding), buckets not overlapping
     dpads = []
     for i in range(30 if quick else 400):
@@ -593,7 +593,29 @@ def run(ctx):
     ctx.assumptions += ["PARTIAL: memory safety of C++ is not a theorem about a Gallina model; the theorems cover the size/index arithmetic of the modelled buffers only",
                         "products GridSize*spacing_ps are taken exactly in the model (the program rounds to double; generated cases are compared with the double evaluation and ties are noted)",
                         "everything that is not index arithmetic (library internals, lifetime, uninitialised locals of the text readers) is only searched"]
-    conclude(ctx, coq, dis)
+    conclude_c17(ctx, coq, dis)
+
+
+def conclude_c17(ctx, coq, dis):
+    """Decision rule of DESIGN 2.4, with one difference from vp_common.conclude: impl-oracle violations that are *known
+    findings* do not count as 'a failing input was found' for a broken proof or a correspondence disagreement (this
+    property always carries known findings on the pinned tree; they must not mask a new breakage)."""
+    kf = load_known()
+    new_oracle = [v for v in ctx.violations if v["kind"] == "impl-oracle" and match_known(kf, v) is None]
+    saved = ctx.violations
+    ctx.violations = list(new_oracle)
+    conclude(ctx, coq, [])                       # proof / translator / extraction stage
+    added = [v for v in ctx.violations if v not in new_oracle]
+    ctx.violations = saved + added
+    seen = set()
+    for d in dis:                                # every kind of disagreement is reported once
+        k = json.dumps(d.get("sig"), sort_keys=True)
+        if k in seen:
+            continue
+        seen.add(k)
+        n = sum(1 for e in dis if json.dumps(e.get("sig"), sort_keys=True) == k)
+        ctx.violation("correspondence", "model and implementation disagree on %d %s case(s)" % (n, (d.get("sig") or {}).get("kind", "")),
+                      case=d.get("case"), observed=d.get("detail"), no_input=not new_oracle, sig=d.get("sig"))
 
 
 def replay(ctx, rp):
